@@ -285,6 +285,49 @@ func (s *scen) judge(o obs, seen map[string]bool) []finding {
 				map[string]any{"open": r.id, "addr": r.tgt.key()})
 		}
 	}
+	// R1, decidedness: every forwarded open is either delivered to an Accept call or rejected.  In a
+	// quiescent process with both dispatchers idle (none parked in forward()), an open the peer has
+	// not got an answer for can only be sitting in the 1-slot queue of a listener that is still open,
+	// waiting for the application.  Anything beyond that -- in particular a forward that was waiting
+	// inside forward() when its listener was closed -- has been neither delivered nor rejected and
+	// never will be (the peer's channel open hangs).
+	if allIdle {
+		pendingBy := map[string][]int{}
+		for _, r := range s.opens {
+			r.mu.Lock()
+			if r.status == "pending" {
+				pendingBy[r.tgt.key()] = append(pendingBy[r.tgt.key()], r.id)
+			}
+			r.mu.Unlock()
+		}
+		for key, ids := range pendingBy {
+			live, ever := 0, 0
+			for l, t := range s.laddr {
+				lr := s.listens[l]
+				if lr == nil || s.tg[t].key() != key {
+					continue
+				}
+				ever++
+				lr.mu.Lock()
+				ok := lr.state == "returned" && lr.err == ""
+				lr.mu.Unlock()
+				if ok && !s.closeReturned(l) {
+					live++
+				}
+			}
+			if ever == 0 || len(ids) <= live { // never-registered addresses are judged above; <=1 per open listener may be queued
+				continue
+			}
+			sort.Ints(ids)
+			sig, what := "forward-undecided-after-listener-closed",
+				"a forwarded channel open is neither delivered nor rejected although its listener was closed and both dispatchers are idle (the peer's OpenChannel never returns)"
+			if live > 0 {
+				sig, what = "forward-undecided-beyond-queue",
+					"more forwarded channel opens are left without an answer than the open listeners for their address can hold queued, with both dispatchers idle"
+			}
+			add("undecided|"+key, sig, what, map[string]any{"addr": key, "undecided_opens": ids, "open_listeners_for_addr": live, "dispatchers": dstates})
+		}
+	}
 	return out
 }
 
